@@ -1,4 +1,4 @@
-import Jasm.Proofs.Master
+import Jasm.Proofs.Frag
 /-!
 # Regexes with a finite language (literals, options, alternatives, sequences): helper lemmas for `$deref`
 -/
